@@ -3,7 +3,7 @@
    nat stay extracted inductives. No Extract Constant / Extract Inductive of our own. *)
 From Coq Require Extraction.
 From Coq Require Import ExtrOcamlBasic.
-From RN Require Import Base.Bytes Model.Edits Model.Serde Model.StyleDef Model.CaseModel Gen.GenStyles Gen.GenAcronyms Model.Fs Model.ApplyModel Model.UndoModel Model.Patch Model.Lock Model.History Model.Matcher Model.Hunks.
+From RN Require Import Base.Bytes Model.Edits Model.Serde Model.StyleDef Model.CaseModel Gen.GenStyles Gen.GenAcronyms Model.Fs Model.ApplyModel Model.UndoModel Model.Patch Model.Lock Model.History Model.Matcher Model.Hunks Model.Renames.
 
 (* uniquely named entry points where two models use the same short name *)
 Definition hist_step := History.step.
@@ -13,6 +13,7 @@ Extraction "model.ml"
   apply_edits_rev spec_splice wf_edits
   enc_plan dec_plan
   parse_to_tokens tokens to_style detect_style variant_map_core variant_map_scanner vmap_to_amap
+  plan_listing name_by_map dedupe_paths without_conflicts
   find_matches is_boundary hunk_ok file_consistent diff_after line_after_plan mk_hunk
   hist_step History.h_init History.implied_tree
   Lock.exec1 Lock.init Lock.in_critical Lock.holders
